@@ -33,7 +33,7 @@ func (m *c15Model) refs(si int) map[string]bool {
 		switch st.K {
 		case "copyx":
 			r["inx"] = true
-		case "addi", "bump", "arr":
+		case "addi", "bump", "arr", "ifblk":
 			r["ini"] = true
 		case "adds":
 			r["ins"] = true
